@@ -60,4 +60,9 @@ TEXTS["C11"] = {
     "note": "Real api/rest, api/rest/client and api types from /repo over real HTTP on loopback; the cluster behind the API is a recording fake.",
     "technique": "property-based differential testing of an API layer against a recording back end (rapid)",
 }
+TEXTS["C13"] = {
+    "level": "Generated-input search with fault injection: file trees around chunk and shard boundaries, all chunkers/layouts/raw-leaves/CID versions/hash functions/wrap, replication settings, 1-3 real libp2p destination hosts with a recording BlockPut (or local), sharding with 1-6 shards and an indirect-shard class, block-put failures at block k of a destination, pin failures; oracles: delivered blocks closed under links from the returned root, every file byte-identical through DagReader over delivered blocks only, root = root of an independent reference importer (so sharded = unsharded), the pin log exactly as stated (root with options and the BlockAllocate allocations; meta + cluster-DAG + shard entries whose links partition the content, sizes under the limit, depth covering the links), and no root/meta pin on failure. A second leg goes client library -> multipart -> REST /add -> adder for the hidden flag. Exploration level.",
+    "note": "Real adder, ipfsadd, single and sharding DAG services, adderutils, REST /add and client from /repo; Cluster.BlockAllocate/Pin and IPFSConnector.BlockPut are recording RPC services on real loopback hosts.",
+    "technique": "property-based differential testing against a reference importer, with fault injection (rapid)",
+}
 PENDING = {}
